@@ -1,6 +1,7 @@
 package main
 
 import (
+	"go/types"
 	"fmt"
 	"go/token"
 	"os"
@@ -46,6 +47,15 @@ func targetOutsideRootBody(p *Prog, r *Report, rule string) {
 					for _, a := range flattenVariadic(jc.Call.Args) {
 						if a == ssa.Value(fn.Params[1]) {
 							return true
+						}
+						// Join(elems...) with the target appended to elems
+						if _, isSlice := a.Type().Underlying().(*types.Slice); isSlice {
+							if derivesFrom(a, func(y ssa.Value) bool { return y == ssa.Value(fn.Params[1]) }, deriveOpts{followStores: true, throughCall: func(c *ssa.CallCommon) bool {
+								b, isB := c.Value.(*ssa.Builtin)
+								return isB && b.Name() == "append"
+							}}) {
+								return true
+							}
 						}
 					}
 					return false
